@@ -101,6 +101,9 @@ structure St where
   world : World := {}
   /-- src: `file_path` (`None` is never constructed by the tool; `Some("")` for -e / stdin) -/
   filePath : Str := []
+  /-- statements that may still start (the counterpart of the hook's statement budget; keeps runs of
+  the executable model finite even for programs with branching recursion) -/
+  budget : Nat := 1000000
 deriving Inhabited
 
 inductive Res (α : Type)
@@ -162,6 +165,10 @@ def flattenNested (σ : St) : Res St :=
   | [] => .panic "env.scrape" σ
   | _ :: [] => .panic "env.activate" σ
   | fr :: _ :: rest => .ok { σ with scopes := fr :: rest }
+
+/-- one statement starts: src (hook) `verif::tick` at the top of `Interpreter::stmt` -/
+def tick (σ : St) : Option St :=
+  if σ.budget = 0 then none else some { σ with budget := σ.budget - 1 }
 
 /-! ## Heap -/
 
